@@ -52,7 +52,9 @@ open DubinsR
 
 /-- `ZERO = 10 · 2⁻⁵²` -/
 theorem rzero_eq : (rzero : ℝ) = 10 * (1 / 2 ^ 52) := by
-  unfold rzero; rw [ofNat_ten, ofDec_eq]
+  unfold rzero
+  show (10 * Num.ofDec (5 ^ 52) 52 : ℝ) = _
+  rw [ofNat_ten, ofDec_eq]
   norm_num
 
 theorem rzero_pos : (0 : ℝ) < rzero := by
